@@ -20,6 +20,9 @@ func runAH(f []string) (string, string) {
 	if len(f) != 4 {
 		return "BADCASE", ""
 	}
+	if ts, isTLS := isTLSSuite(f[2]); isTLS { // round 12: shared session cache scenarios (ah2.go)
+		return runAHCache(ts, f[3])
+	}
 	suite, ok := parseSuite(f[2])
 	if !ok {
 		return "BADCASE", ""
